@@ -9,7 +9,7 @@ ID = 'C20'
 LEVEL = 'exploration'
 TECHNIQUE = 'bounded exhaustive enumeration of label strings x option subsets, round-trip + regex reference oracle'
 
-ATOMS = ['A', 'b', '1', '2', '-', '=', '#', "'", '*', 'EMPTY']
+ATOMS = ['A', 'b', '1', '2', '-', '=', '#', "'", '*', 'EMPTY', 'Empty']
 SEPS = [None, '-', '#']
 
 
@@ -21,6 +21,7 @@ def plan(tier, seed):
             chunks.append({'kind': 'strings', 'prefix': [a, b], 'maxlen': L})
     chunks.append({'kind': 'get_label'})
     chunks += [{'kind': 'pipeline', 'n': n} for n in ((3, 4) if tier == 'quick' else (3, 4, 5))]
+    chunks += [{'kind': 'multisep', 'sep': sep, 'maxlen': 4 if tier == 'quick' else 5} for sep in ('--', '::', '-#', '=')]
     chunks += [{'kind': 'reader', 'sep': sep, 'maxlen': 3 if tier == 'quick' else 4} for sep in SEPS]
     return {
         'chunks': chunks + [{'kind': 'clipipe'}],
@@ -204,6 +205,27 @@ def check_get_label(c):
     return out
 
 
+def check_roundtrip_only(s, sep):
+    """Separators of more than one character (and '=', which is also the gap-index mark): no reference reading of
+    the parts, only the property's round trip - formatting what was parsed gives the string back."""
+    out = []
+    try:
+        lab = T.parse_label(s, gf_separator=sep)
+        cands = set()
+        for flags in ((), ('always_label',), ('always_gf',), ('always_label', 'always_gf')):
+            cands.add(T.format_label(T.parse_label(s, gf_separator=sep), **{k: True for k in flags}))
+        plain = T.format_label(lab)
+        default = lab.label == 'EMPTY' or lab.gf == '--'
+        if (plain != s) if not default else (s not in cands):
+            out.append({'kind': 'roundtrip', 'where': 'format_label(parse_label)', 'case': {'s': s, 'multisep': sep},
+                        'detail': 'separator %r: format(parse(%r)) = %r%s' % (sep, s, plain, '' if not default else ', with always_*: %r' % sorted(cands)),
+                        'what': 'format(parse(s)) != s'})
+    except Exception as e:
+        out.append({'kind': 'exception', 'where': 'parse_label/format_label', 'case': {'s': s, 'multisep': sep},
+                    'detail': '%s: %s on %r with separator %r' % (type(e).__name__, e, s, sep), 'what': 'label function raised'})
+    return out
+
+
 def check_readers(sepopt, maxlen, only=None):
     """The readers' gf_split is parse + format with the function taken out: every string of <= maxlen atoms as
     the label of a constituent of a bracketed sentence, read with gf_split (and gf_separator)."""
@@ -255,6 +277,8 @@ def check_case(case):
             from . import c05
             return [v for v in c05.check_one(case['mt'], case['root_attach'], case.get('order'), case.get('rules'))[0]
                     if v['kind'] in ('split-marking', 'split-marking-written', 'second-split')]
+        if case.get('multisep'):
+            return check_roundtrip_only(case['s'], case['multisep'])
         if case.get('reader'):
             return check_readers(case['sep'], case['maxlen'], case.get('only'))[0]
         if 'get_label' in case:
@@ -284,6 +308,19 @@ def run_chunk(chunk):
         return res
     res = Result()
     with quiet():
+        if chunk['kind'] == 'multisep':
+            n = 0
+            for L in range(0, chunk['maxlen'] + 1):
+                for tup in itertools.product(ATOMS, repeat=L):
+                    s = ''.join(tup)
+                    n += 1
+                    for v in check_roundtrip_only(s, chunk['sep']):
+                        res.violation(v['kind'], v['where'], v['case'], v['detail'], v['what'])
+            res.evals += n
+            res.nontrivial += n
+            res.outcome(('multisep', chunk['sep']))
+            res.sample({'separator': chunk['sep'], 'strings': n})
+            return res
         if chunk['kind'] == 'reader':
             vs, n = check_readers(chunk['sep'], chunk['maxlen'])
             res.evals += n
